@@ -7,52 +7,7 @@
 #include "nanoisa/verifier.h"
 #include "isa_contracts.h"
 
-#define NVM_MAX_FILE (100u * 1024u * 1024u)
-#ifndef LE32
-#define LE16(p) ((uint16_t)((uint16_t)(p)[0] | ((uint16_t)(p)[1] << 8)))
-#define LE32(p) ((uint32_t)(p)[0] | ((uint32_t)(p)[1] << 8) | ((uint32_t)(p)[2] << 16) | ((uint32_t)(p)[3] << 24))
-#endif
-
-/* what the loader hands to the verifier: counts within the file-size bound, arrays valid for `count` entries */
-#define MODV_PRE(mod) ( \
-    VERIF_FRESH(mod, sizeof(NvmModule)) && \
-    (mod)->function_count <= NVM_MAX_FILE && (mod)->import_count <= NVM_MAX_FILE && (mod)->code_size <= 16u * NVM_MAX_FILE && \
-    VERIF_FRESH((mod)->functions, (size_t)(mod)->function_count * sizeof(NvmFunctionEntry)) && \
-    VERIF_FRESH((mod)->imports, (size_t)(mod)->import_count * sizeof(NvmImportEntry)) && \
-    VERIF_FRESH((mod)->code, (mod)->code_size))
-
-/* spec: instruction length from the table row, as an expression (slots beyond operand_count are NONE by C11.table.k) */
-#define OPSZ_M(t) ((t) == OPERAND_U8 ? 1u : (t) == OPERAND_U16 ? 2u : ((t) == OPERAND_U32 || (t) == OPERAND_I32) ? 4u : \
-                   ((t) == OPERAND_I64 || (t) == OPERAND_F64) ? 8u : 0u)
-#define ROW_M(k) (instruction_table[(uint8_t)(k)])
-#define SPEC_LEN_M(k) (1u + OPSZ_M(ROW_M(k).operands[0]) + OPSZ_M(ROW_M(k).operands[1]) + OPSZ_M(ROW_M(k).operands[2]) + OPSZ_M(ROW_M(k).operands[3]))
-
-#define FN_OK(mod, f) ((mod)->functions[f].code_offset <= (mod)->code_size && \
-    (uint64_t)(mod)->functions[f].code_offset + (uint64_t)(mod)->functions[f].code_length <= (uint64_t)(mod)->code_size && \
-    (mod)->functions[f].name_idx < (mod)->string_count)
-#define IMP_OK(mod, i) ((mod)->imports[i].module_name_idx < (mod)->string_count && (mod)->imports[i].function_name_idx < (mod)->string_count)
-#define ENTRY_OK(mod) (!((mod)->header.flags & NVM_FLAG_HAS_MAIN) || (mod)->header.entry_point < (mod)->function_count)
-
-/* instruction at offset p of function f is well-formed (what the VM may rely on) */
-#define FCODE(mod, f) ((mod)->code + (mod)->functions[f].code_offset)
-#define FEND(mod, f) ((mod)->functions[f].code_length)
-#define JTGT(mod, f, p, o) ((int64_t)(p) + (int64_t)(int32_t)LE32(FCODE(mod, f) + (p) + (o)))
-#define OPC(mod, f, p) (FCODE(mod, f)[p])
-#define IOK_DECODE(mod, f, p) ((p) < FEND(mod, f) && ROW_M(OPC(mod, f, p)).name != NULL && SPEC_LEN_M(OPC(mod, f, p)) <= FEND(mod, f) - (p))
-#define IOK_JMP(mod, f, p) ((OPC(mod, f, p) != OP_JMP && OPC(mod, f, p) != OP_JMP_TRUE && OPC(mod, f, p) != OP_JMP_FALSE) || \
-        (JTGT(mod, f, p, 1) >= 0 && JTGT(mod, f, p, 1) <= (int64_t)FEND(mod, f)))
-#define IOK_MATCH(mod, f, p) (OPC(mod, f, p) != OP_MATCH_TAG || (JTGT(mod, f, p, 3) >= 0 && JTGT(mod, f, p, 3) <= (int64_t)FEND(mod, f)))
-#define IOK_CALL(mod, f, p) ((OPC(mod, f, p) != OP_CALL && OPC(mod, f, p) != OP_CLOSURE_NEW) || LE32(FCODE(mod, f) + (p) + 1) < (mod)->function_count)
-#define IOK_STR(mod, f, p) (OPC(mod, f, p) != OP_PUSH_STR || LE32(FCODE(mod, f) + (p) + 1) < (mod)->string_count)
-#define IOK_EXTERN(mod, f, p) (OPC(mod, f, p) != OP_CALL_EXTERN || LE32(FCODE(mod, f) + (p) + 1) < (mod)->import_count)
-#define IOK_LOCAL(mod, f, p) ((OPC(mod, f, p) != OP_LOAD_LOCAL && OPC(mod, f, p) != OP_STORE_LOCAL) || LE16(FCODE(mod, f) + (p) + 1) < (mod)->functions[f].local_count)
-/* INSTR_OK = conjunction of the seven parts; each part is proved by its own obligation
- * (-DVERIF_IOK=<part>) because the conjunction makes symbolic execution of the contract itself too slow */
-#ifndef VERIF_IOK
-#define INSTR_OK(mod, f, p) 1
-#else
-#define INSTR_OK(mod, f, p) VERIF_IOK(mod, f, p)
-#endif
+#include "modwf.h"
 
 extern uint32_t __verif_gf, __verif_gi;      /* ghost function / import index */
 extern uint32_t __verif_gpos;                /* ghost instruction offset */
